@@ -59,7 +59,10 @@ def run_c20(tier, seed):
     d = out_dir('c20')
     lists, by_cat = c20_lists(tier, seed)
     allocs = ['std', 'stateful'] if tier == 'quick' else ['std', 'pmr', 'stateful', 'propagating']
-    toolchains = [('clang++', 'c++17')] if tier == 'quick' else [('clang++', 'c++17'), ('clang++', 'c++20'), ('g++', 'c++17'), ('g++', 'c++20')]
+    # clang++ 14 -std=c++20 is left out: it cannot compile libstdc++ 12's <ranges> machinery that the library switches
+    # to under __cpp_lib_ranges (errors inside bits/iterator_concepts.h for every list) - a toolchain pairing problem,
+    # not a property of the library; the repository's own C++20 targets are built with g++
+    toolchains = [('clang++', 'c++17')] if tier == 'quick' else [('clang++', 'c++17'), ('g++', 'c++17'), ('g++', 'c++20')]
     if tier == 'quick':
         # every list also once with pmr / propagating, alternating, so all four kinds are touched
         pass
